@@ -241,6 +241,12 @@ def declaration_records(repo):
                     rec['any_effect'] = True
                 if not set(names) <= declared:
                     rec['undeclared'].append(s.variant)
+                # a nonlocal name belongs to an enclosing *function*: filing it with the module's globals makes every later
+                # binding of it in this function a module-level binding
+                if cls == 'Nonlocal':
+                    for e in ps.effects:
+                        if e[0] in ('symset_update', 'symset_add') and str(e[1]).endswith('.globals'):
+                            rec['foreign'].append((s.variant, '%s (a nonlocal name filed as a module global)' % e[1]))
                 # the declaration concerns the block it is written in: no other scope's tables may change
                 for e in ps.effects:
                     if e[0] in ('symset_update', 'symset_add') and not str(e[1]).startswith('CURSCOPE.'):
